@@ -183,6 +183,8 @@ pub struct Hello {
     pub vm_pages: u64,
     pub live_count: u64,
     pub live_bytes: u64,
+    /// the allocator reserve survived (VmSize did not move when the 6 MiB block was freed)
+    pub reserve_ok: bool,
 }
 
 pub fn parse_hello(b: &[u8]) -> Option<Hello> {
@@ -199,6 +201,7 @@ pub fn parse_hello(b: &[u8]) -> Option<Hello> {
         vm_pages: r.u64(),
         live_count: r.u64(),
         live_bytes: r.u64(),
+        reserve_ok: r.u8() == 1,
     };
     if r.bad {
         None
